@@ -45,7 +45,9 @@ CAP_NAMES = ['merchant', 'type', 'memo', 'cardholder', 'ref', 'a1', '_x', 'Kind'
 DESCS = ['COFFEE SHOP', 'Café Zoë', 'ACME, Inc.', 'He said "hi"', 'multi\nline', ' padded ', ' nbsp　',
          'a;b', 'a|b', 'tab\there', 'SHOP CA', 'SHOP  NY ', 'x', '日本語 店', "O'Brien", 'emoji 🍕 TX', 'ends"',
          '"', 'a""b', '=1+1', '\x1cFS\x1f', 'UBER *TRIP WA', 'X\tTX\n', 'AB', 'lower ca', 'A:B', '{x}', '{0}',
-         'NETFLIX.COM', '#', 'x CA', 'cr\rhere', 'crlf\r\nx', 'em\u2003sp']
+         'NETFLIX.COM', '#', 'x CA', 'em\u2003sp']
+CR_DESCS = ['cr\rhere', 'crlf\r\nx', '\r']      # universal-newline translation changes these cells: discarded
+
 BLANKS = ['', ' ', '   ', '\t', ' ', '　 ']
 BAD_DATES = ['notadate', '2024-13-45', '31/02/2024', '13/13/2013', '2024/01/02x', '0', '--', 'Jan', '99999999', 'nan']
 PADS = ['', '', '', ' ', '  ', '\t', ' \t']
@@ -243,7 +245,7 @@ def gen_row(rnd, lay):
             else:
                 c = render_amount(rnd, val, conv)
         elif r == 'description':
-            c = rnd.choice(DESCS)
+            c = rnd.choice(DESCS) if rnd.random() > .01 else rnd.choice(CR_DESCS)
             if kind == 'blankdesc':
                 c, truth = rnd.choice(BLANKS), 'reject'
             desc_txt = c.strip()
@@ -449,7 +451,9 @@ def oracle(case, r):
         if not any(l.startswith('single-row-raises') for l, _ in bad) and cat != txns:
             bad.append(('not-concatenation-of-single-row-runs', {'full': len(txns), 'concatenated': len(cat)}))
     # (3) generator ground truth: rows written well-formed appear, faithfully, in order; malformed ones do not
-    if 'singles' in r and 'spec' in r:
+    #     (only when CPython's csv.reader gives back the cells that were written)
+    tokens_ok = 'lib' in r and (case['lay']['kind'] != 'csv' or r['lib'].get('records') == intended_records(case))
+    if 'singles' in r and 'spec' in r and tokens_ok:
         mode = mode_of(r['spec'])
         for i, (row, s) in enumerate(zip(case['rows'], r['singles'])):
             if 'error' in s or row['truth'] is None:
